@@ -220,6 +220,15 @@ func (fr *Frame) rangeNext(x *ssa.Next) Value {
 	okT := s.freshVar("range.more", BoolSort)
 	key := s.symValue(mt.Key(), "range.key")
 	val := s.symValue(mt.Elem(), "range.val")
+	if m.Obj != nil {
+		if mc, isMC := s.contents(m.Obj).(*MapContents); isMC {
+			// an entry produced by range is in the map NOW (entries deleted before they are reached are not produced)
+			// and comes with its current value
+			present, cur := s.mapGet(mc, s.keyTerm(key), m.Obj.Name)
+			s.assume(Implies(okT, present))
+			val = cur
+		}
+	}
 	s.logEvent("range.next", m, okT, key)
 	s.log[len(s.log)-1].ArgT = []types.Type{types.Typ[types.Bool], mt.Key()}
 	s.rangeKeys = append(s.rangeKeys, key)
